@@ -231,6 +231,26 @@ def to_input(field, vals, form):
         untyped = len(vals) == 0 or (k in RAGGED_NUM and not any(len(v) for v in vals))
         form = "native" if untyped else "list"
     vals = copy.deepcopy(list(vals))
+    if form == "alt":
+        # a second container that the conversion documents / the file readers produce for this kind
+        if k in NUM:
+            return tuple(vals)
+        if k in ("str", "union"):
+            return np.array(vals, dtype="U") if len(vals) else np.array([], dtype="U1")
+        if k == "sid":
+            return bnp.as_encoded_array(vals)                       # text as read from a file
+        if k in ("dna", "cigop", "bam"):
+            return bnp.as_encoded_array(vals)                       # base-encoded text, to be re-encoded
+        if k == "strand":
+            return "".join(vals)                                    # one python string
+        if k in ("li", "lf", "lb", "ciglen"):
+            dt = {"li": np.int64, "lf": np.float64, "lb": bool, "ciglen": np.int64}[k]
+            return [np.array(v, dtype=dt) for v in vals]
+        if k == "qual":
+            return RaggedArray(np.array([x for v in vals for x in v], dtype=np.uint8), np.array([len(v) for v in vals], dtype=int))
+        if k == "ls":
+            return np.array(vals, dtype="S").reshape(len(vals), 2)
+        raise ValueError(k)
     if k == "qual":
         vals = ["".join(chr(33 + q) for q in v) for v in vals]
     if form == "list":
@@ -567,6 +587,8 @@ def table_ops(sch, n, level, depth):
         ops.append(["replace", f.name, "list"])
     if not mini:
         ops.append(["replace", sch.fields[-1].name, "native"])
+    if full and sch.fields[-1].sub is None:
+        ops.append(["replace", sch.fields[-1].name, "alt"])
     if len(sch.fields) > 1 and full:
         ops.append(["replace2", sch.fields[0].name, sch.fields[-1].name])
     # add_fields: a column of the kind of the last column, with a type map and (basic types) by inference
@@ -680,8 +702,8 @@ def make_step(node, op):
             cols[nm] = (sch.fields[j], newvals)
 
         def step(t, info):
-            kw = {nm: to_input(f, vals, "auto" if form == "list" else "native") for nm, (f, vals) in cols.items()}
-            info["lists"] = [(v, copy.deepcopy(v)) for v in kw.values() if isinstance(v, list)]
+            kw = {nm: to_input(f, vals, "auto" if form == "list" else form) for nm, (f, vals) in cols.items()}
+            info["lists"] = [(v, copy.deepcopy(v)) for v in kw.values() if isinstance(v, list) and form == "list"]
             return bnp.replace(t, **kw)
     elif name == "add":
         new_sch = sch.extended(op[1], op[2])
@@ -986,15 +1008,15 @@ def construct_case(col, case):
     n = len(rows)
     def no_elements(v):
         return all(no_elements(x) for x in v) if isinstance(v, list) else False
-    untyped = form == "list" and any(f.kind in NUM or f.kind in RAGGED_NUM for f in sch.fields) and \
-        any(no_elements([r[j] for r in rows]) for j, f in enumerate(sch.fields) if f.kind in NUM or f.kind in RAGGED_NUM)
-    zero = ":untyped-empty-lists" if (form == "list" and (n == 0 or untyped)) else (":empty()" if form == "empty()" else "")
+    untyped = form in ("list", "alt") and any(no_elements([r[j] for r in rows]) for j, f in enumerate(sch.fields)
+                                               if f.kind in NUM or f.kind in RAGGED_NUM)
+    zero = ":untyped-empty-lists" if untyped or (form == "list" and n == 0) else (":empty()" if form == "empty()" else "")
     col.case({"k": "construct", "s": sch.name, "n": n, "form": form, "kw": case.get("keywords", False)}, contract="construct")
     if form == "empty()":
         ok, t = run_guarded(ctx, "construct:empty()", case, lambda: cls_of(sch).empty())
     else:
         cols = [to_input(f, [r[j] for r in rows], form) for j, f in enumerate(sch.fields)]
-        snapshot = [copy.deepcopy(c) if isinstance(c, list) else None for c in cols]
+        snapshot = [copy.deepcopy(c) if isinstance(c, list) and not any(hasattr(x, "dtype") for x in c) else None for c in cols]
         cls = cls_of(sch)
         ok, t = run_guarded(ctx, "construct" + zero, case,
                             (lambda: cls(**dict(zip(sch.names(), cols)))) if case.get("keywords") else (lambda: cls(*cols)))
@@ -1007,7 +1029,7 @@ def construct_case(col, case):
             col.fail("construct:%s:%s%s" % (f.kind if not zero else "any", what, zero), case, m)
     ok, got = run_guarded(ctx, "construct:result" + zero, case, lambda: extract(t, sch))
     if ok:
-        compare(ctx, "construct", zero + (":" + form if form == "native" else ""), sch, got, rows, case)
+        compare(ctx, "construct", zero + (":" + form if form in ("native", "alt") else ""), sch, got, rows, case)
     if form != "empty()":
         for c, s in zip(cols, snapshot):
             if s is not None:
@@ -1163,7 +1185,7 @@ def run(tier="quick", seed=0):
     schemas = kind_schemas() + other_schemas()
     for sch in schemas + datatype_schemas():
         for n in range(4):
-            for form in ("list", "native"):
+            for form in ("list", "native", "alt"):
                 for kw in ((False, True) if form == "list" else (False,)):
                     c = {"section": "construct", "schema": sch.desc, "rows": make_rows(sch, n), "form": form, "keywords": kw}
                     col.guarded(lambda: construct_case(col, c), "construct:crash", c)
